@@ -52,6 +52,17 @@ CHECKS = {
              "oracle re-derives every operation's type from its operands' recorded types on every real MIR.",
         note=MODEL_NOTE, technique="Lean 4 proof by mutual structural induction + kernel-decided table; type re-derivation oracle",
         design="6 C05"),
+    "C08": dict(
+        text="Lean `compile_mono` (induction over the traversal, the function worklist and the output list): if the store returns for "
+             "every id the program's own record, then whatever else it holds — records of earlier programs, partial effects of failed "
+             "commands, later traces — the emitted MIR is identical; corollaries for 'B traced after history A' and for later traces; "
+             "emitted tables hold only records reachable from the outputs. The compile model keeps no state between compilations; that "
+             "the real compiler behaves so is checked by running whole histories (failing compilations included) through model and real "
+             "code (K3) and by a metamorphic oracle on the real code (B after history vs B fresh, up to id / literal renaming).",
+        note=MODEL_NOTE + " Invariance under the id shift and literal renaming induced by a history is not proved in Lean; it is decided "
+             "by the metamorphic run.",
+        technique="Lean 4 proof of store-monotonicity of compilation + history differential run and metamorphic oracle",
+        design="6 C08"),
     "C09": dict(
         text="Lean theorems for every store and output list (induction over the iterative DFS / function worklist of the compile model): "
              "no dead operation in any emitted table (reachability from outputs / return operation), nothing missing (closure, roots "
